@@ -23,7 +23,7 @@ vars == <<desc, term, done>>
 Cls == <<"Dense", "User", "Diag", "ConstDiag", "Identity", "Zero", "Toeplitz", "Tri", "Chol", "Root", "LowRankRoot",
          "Kron", "KronTri", "KronDiag", "KronAddedDiag", "SumKron", "AddedDiag", "LRRAddedDiag", "Sum", "PsdSum",
          "Matmul", "Mul", "ConstMul", "BlockDiag", "BlockInter", "SumBatch", "BatchRepeat", "Cat", "Interp", "Masked",
-         "Perm", "TransPerm", "Kernel", "CholU">>
+         "Perm", "TransPerm", "Kernel", "CholU", "KernelM">>
 Batches == << <<>>, <<2>> >>
 Dts == <<"f32", "f64">>
 Actions == <<"clone", "detach", "to_dtype", "type", "double", "float", "cpu", "rebuild", "requires_grad_", "evaluate_kernel", "outputs">>
